@@ -145,6 +145,10 @@ ClasswiseRange(ds, e, sel) ==
   \A c \in Classes(ds) : Proj(ds, sel, c) = SubSeq(Members(ds, c), CwLo(ds, e, c) + 1, CwHi(ds, e, c))
 
 (* ----------------- all per-construction clauses of one kind ------------ *)
+\* ds.inexact (trace configurations only): the percent bounds are not exactly representable (0.29, 1/3, ...), so
+\* the exact position of a bound is whatever the float product rounds to - nothing is demanded of ONE construction
+\* beyond contiguity / order; the partition clause over the whole chain still holds exactly
+Inexact(ds) == "inexact" \in DOMAIN ds /\ ds.inexact
 Failed(ds, e, sel) ==
   IF ~UnderlyingOnly(ds, sel) THEN {"UnderlyingOnly"}
   ELSE CASE ds.kind = "filter" ->
@@ -152,7 +156,8 @@ Failed(ds, e, sel) ==
                 \cup Chk("FilterAllAllowed", FilterAllAllowed(ds, e, sel))
                 \cup Chk("FilterOriginalOrder", OriginalOrder(sel))
          [] ds.kind \in RangeKinds ->
-              Chk("RangeContiguous", Contiguous(sel)) \cup Chk("RangeBounds", RangeBounds(ds, e, sel))
+              Chk("RangeContiguous", Contiguous(sel))
+                \cup (IF Inexact(ds) THEN {} ELSE Chk("RangeBounds", RangeBounds(ds, e, sel)))
          [] ds.kind = "subset_list" -> Chk("IndicesExact", IndicesExact(ds, e, sel))
          [] ds.kind = "shuffle" -> Chk("ShufflePerm", IsPerm(ds, sel))
          [] ds.kind = "sort" ->
@@ -169,8 +174,9 @@ Failed(ds, e, sel) ==
          [] ds.kind = "fewshot" ->
               Chk("FewshotAmount", FewshotAmount(ds, e, sel)) \cup Chk("FewshotDistinct", Distinct(sel))
          [] ds.kind \in ClasswiseKinds ->
-              Chk("ClasswiseAmount", ClasswiseAmount(ds, e, sel))
-                \cup Chk("ClasswiseRange", ClasswiseRange(ds, e, sel))
+              (IF Inexact(ds) THEN {}
+               ELSE Chk("ClasswiseAmount", ClasswiseAmount(ds, e, sel))
+                      \cup Chk("ClasswiseRange", ClasswiseRange(ds, e, sel)))
                 \cup Chk("ClasswiseOrder", NonDecreasing(ds, sel))
          [] OTHER -> {"UnknownKind"}
 
